@@ -44,6 +44,7 @@ RppBig == {3, 8, 100}
 RppHuge == {100, 5000}
 Rgo0 == {0}
 StatsTrue == {"true"}
+StatsLists == {"true", "list", "listother"}
 
 RowsQuick == {0, 1, 2, 3, 8, 9}
 RowsThorough == {0, 1, 2, 3, 8, 9, 17}
